@@ -37,7 +37,7 @@ ASSUMPTIONS = ['PyDict_Next and _PySet_NextEntry are the only raw table walkers 
                'reversed ranges swap bound1/bound2 (checked: the swap statement must exist, otherwise ANALYSIS-ERROR)',
                'nodes built by Parsing.py carry user-written operators and legitimately follow the user\'s directives; every other literal-operator construction is synthesised']
 
-EXEMPT = {}
+EXEMPT = {}   # completed below from C20 (same rule, same confirmed-infeasible path)
 
 MUTATIONS = [
     # (file, single edit on a scratch copy, rule that reported it)                                  -- all reported with exit 1 unless marked
@@ -464,6 +464,15 @@ def rule_REV(ctx, transform):
 
 
 # ------------------------------------------------------------------------------------------------------------ run
+
+def _let_exempt():
+    from . import C20
+    return {('C14-LET', c): why for (rid, c), why in C20.EXEMPT.items() if rid == 'LET-ORDER'}
+
+
+EXEMPT.update(_let_exempt())
+
+
 def run(ctx):
     ix = ctx.index
     transform = _cls(ix, 'Optimize', 'IterationTransform')
